@@ -75,6 +75,9 @@ Dangling(res2, direct2) == {r \in Held(direct2, res2) : r \notin DOMAIN res2}
 
 (* Finding KF-G: a get response delivered these resources while the request   *)
 (* now answered was outstanding, and the gateway considers them sent.          *)
+(* gotByGet[x] = line of the get response that delivered x - recorded only when another request of the client for the *)
+(* got resource (or a call / auth / new, whose result resource is unknown) was outstanding then: its in-flight direct   *)
+(* count is what keeps the got resources in state sent (without one the collector marks them unsent again)             *)
 ByGet(cl, d, reqL) == \A x \in d : Get(cl.gotByGet, x, 0) > reqL
 
 (* (a drop is recorded only while a request that keeps the resource sent is outstanding - PendOn - and forgotten *)
@@ -214,7 +217,8 @@ H_cres(r) ==
             LET getH == Closure({req.rid}, res1)
                 miss == {x \in getH : x \notin DOMAIN res1}
                 kfm == KfOf(cl1, miss, req.l)
-                cl2 == [Collect(cl1, res1, cl1.direct) EXCEPT !.gotByGet = [x \in DOMAIN SetRes(r.set) |-> l] @@ @,
+                keeps == \E i \in DOMAIN cl1.pend : (cl1.pend[i].m \in {"subscribe", "get"} /\ cl1.pend[i].rid = req.rid) \/ cl1.pend[i].m \in {"call", "auth", "new"}
+                cl2 == [Collect(cl1, res1, cl1.direct) EXCEPT !.gotByGet = IF keeps THEN [x \in DOMAIN SetRes(r.set) |-> l] @@ @ ELSE @,
                                                               !.taintG = @ \/ (miss # {} /\ kfm = "KF-G"),
                                                               !.taintW = @ \/ (miss # {} /\ kfm = "KF-W")]
             IN Res(SetConn(o, r.c, cl2),
